@@ -20,6 +20,7 @@ RULE = (
 )
 
 
+@core.guard
 def judge(case):
     from pyrtcm import RTCMMessage  # pylint: disable=import-outside-toplevel
 
